@@ -68,12 +68,22 @@ impl<'a> G<'a> {
             _ => { if nonnull { self.kw("begin"); self.kw("end"); } else { self.symt(";"); } }
         }
     }
+    /// a module instantiation (A.4.1.1) of one of the modules generated so far: ordered or named port connections, optional parameter override
+    fn instantiation(&mut self, vars: &Vec<String>) {
+                let (m, ports) = self.rng.pick(&self.mods).clone(); let np = ports.len(); self.id(&m);
+                if self.rng.chance(1, 3) { self.sym("#"); self.sym("("); self.sym("."); self.idn("P0"); self.sym("("); self.number(); self.sym(")"); self.symt(")"); }
+                let inst = self.fresh(); self.idn(&inst); self.s.expect.push(("ModuleInstantiation", "InstanceIdentifier", inst));
+                self.sym("(");
+                let named = self.rng.chance(1, 2);
+                for k in 0..np { if k > 0 { self.sym(","); } if named { self.sym("."); self.idn(&ports[k]); self.sym("("); self.expr(vars, 2); self.sym(")"); } else { self.expr(vars, 2); } }
+                self.sym(")"); self.symt(";"); self.bump("ModuleInstantiation"); }
     fn range(&mut self) { self.sym("["); self.s.text.push_str(self.rng.pick_str(&["7", "3", "1", "0"])); self.sym(":"); self.s.text.push_str("0"); self.symt("]"); }
     fn item(&mut self, vars: &mut Vec<String>, in_module: bool) {
         let r = self.rng.below(if in_module { 16 } else { 8 });
         match r {
             0 => { let t = self.rng.pick_str(&["wire", "tri", "wand", "wor", "uwire"]).to_string(); self.kw(&t); if self.rng.chance(1, 2) { self.range(); } let n = self.fresh(); self.idn(&n); self.s.expect.push(("NetDeclaration", "NetIdentifier", n.clone())); if self.rng.chance(1, 3) { self.symt("="); self.expr(vars, 1); } self.symt(";"); vars.push(n); }
-            1 | 2 => { let t = self.rng.pick_str(&["logic", "reg", "bit", "int", "integer", "byte", "shortint", "longint", "real", "time", "string"]).to_string(); self.kw(&t); if (t == "logic" || t == "reg" || t == "bit") && self.rng.chance(1, 2) { self.range(); }
+            1 | 2 => { if self.rng.chance(1, 3) { let pre = self.rng.pick_str(&["var", "const", "static", "automatic", "var static", "var automatic", "const var", "const static", "const var static", "const var automatic"]).to_string(); for w in pre.split(' ') { self.kw(w); } }
+                let t = self.rng.pick_str(&["logic", "reg", "bit", "int", "integer", "byte", "shortint", "longint", "real", "time", "string"]).to_string(); self.kw(&t); if (t == "logic" || t == "reg" || t == "bit") && self.rng.chance(1, 2) { self.range(); }
                 let n = self.fresh(); self.idn(&n); self.s.expect.push(("DataDeclaration", "VariableIdentifier", n.clone()));
                 if self.rng.chance(1, 4) { self.sym(","); let n2 = self.fresh(); self.idn(&n2); self.s.expect.push(("DataDeclaration", "VariableIdentifier", n2.clone())); vars.push(n2); }
                 self.symt(";"); if t != "string" && t != "real" && t != "time" { vars.push(n); } }
@@ -90,17 +100,10 @@ impl<'a> G<'a> {
                 match k { 0 => { self.kw("always_comb"); } 1 => { self.kw("always_ff"); self.sym("@"); self.sym("("); self.kw("posedge"); self.id("clk"); self.symt(")"); } 2 => { self.kw("always"); self.symt("@*"); } _ => { self.kw("always"); self.sym("@"); self.sym("("); self.kw("negedge"); self.id("clk"); self.kw("or"); self.kw("posedge"); self.id("rst"); self.symt(")"); } }
                 self.stmt2(vars, 0, true, false); self.bump("AlwaysConstruct"); }
             11 => { self.kw("initial"); self.stmt(vars, 0); self.bump("InitialConstruct"); }
-            12 if !self.mods.is_empty() => { // instantiation
-                let (m, ports) = self.rng.pick(&self.mods).clone(); let np = ports.len(); self.id(&m);
-                if self.rng.chance(1, 3) { self.sym("#"); self.sym("("); self.sym("."); self.idn("P0"); self.sym("("); self.number(); self.sym(")"); self.symt(")"); }
-                let inst = self.fresh(); self.idn(&inst); self.s.expect.push(("ModuleInstantiation", "InstanceIdentifier", inst));
-                self.sym("(");
-                let named = self.rng.chance(1, 2);
-                for k in 0..np { if k > 0 { self.sym(","); } if named { self.sym("."); self.idn(&ports[k]); self.sym("("); self.expr(vars, 2); self.sym(")"); } else { self.expr(vars, 2); } }
-                self.sym(")"); self.symt(";"); self.bump("ModuleInstantiation"); }
+            12 if !self.mods.is_empty() => { self.instantiation(vars); }
             13 => { self.kw("generate"); self.kw("for"); self.sym("("); self.kw("genvar"); let g = self.fresh(); self.id(&g); self.symt("="); self.s.text.push_str("0 "); self.symt(";"); self.id(&g); self.symt("<"); self.s.text.push_str("2 "); self.symt(";"); self.idn(&g); self.symt("++"); self.symt(")"); self.kw("begin"); self.symt(":"); let b = self.fresh(); self.id(&b);
-                let mut v2 = vars.clone(); self.item(&mut v2, false); self.kw("end"); self.kw("endgenerate"); self.bump("GenerateRegion"); }
-            14 => { self.kw("if"); self.sym("("); self.number(); self.symt(")"); self.kw("begin"); let mut v2 = vars.clone(); self.item(&mut v2, false); self.kw("end"); if self.rng.chance(1, 2) { self.kw("else"); self.kw("begin"); self.kw("end"); } self.bump("ConditionalGenerateConstruct"); }
+                let mut v2 = vars.clone(); if !self.mods.is_empty() && self.rng.chance(1, 2) { self.instantiation(&v2); } else { self.item(&mut v2, false); } self.kw("end"); self.kw("endgenerate"); self.bump("GenerateRegion"); }
+            14 => { self.kw("if"); self.sym("("); self.number(); self.symt(")"); let blk = self.rng.chance(2, 3); if blk { self.kw("begin"); } let mut v2 = vars.clone(); if !self.mods.is_empty() && (!blk || self.rng.chance(1, 2)) { self.instantiation(&v2); } else if blk { self.item(&mut v2, false); } else { self.symt(";"); } if blk { self.kw("end"); } if self.rng.chance(1, 2) { self.kw("else"); self.kw("begin"); self.kw("end"); } self.bump("ConditionalGenerateConstruct"); }
             _ => { let n = self.fresh(); self.kw("logic"); self.idn(&n); self.s.expect.push(("DataDeclaration", "VariableIdentifier", n.clone())); self.symt(";"); vars.push(n); }
         }
     }
